@@ -6,6 +6,8 @@
     ircmodel fn  <calls-file>   pure-function mode, format of `irc-harness fn`
 -/
 import Irc
+import Irc.Timer
+import Irc.Config
 
 open Irc
 
@@ -197,6 +199,33 @@ def fnCall (t : List Str) : String :=
       let chunks := (args.drop 1).map (fun c => if c == ['-'] then [] else hexBytes c)
       let fr := Codec.codecRun max chunks
       if fr.isEmpty then "none" else String.intercalate " " (fr.map frameS)
+    else if name == "vhash" then boolS (Config.validPasswordHash (a 0))
+    else if name == "configm" then
+      -- configm name network listen port pw dns tls opers users chans | cli: listen port name network log dns cert key
+      let o (i : Nat) : Option Str := optOf (args.getD i ['-'])
+      let rec3 (s : Str) : List Str := splitOnChar '|' s
+      let opers : List Config.RawOper := (unescList (args.getD 7 [])).map (fun e =>
+        match rec3 e with
+        | [n, p, m] => { name := n, password := p, mask := if m == ['-'] then none else some (m.drop 1) }
+        | _ => { name := [], password := [] })
+      let users : List Config.RawUser := (unescList (args.getD 8 [])).map (fun e =>
+        match rec3 e with
+        | [n, k, p, m] => { name := n, nick := k,
+                            password := if p == ['-'] then none else some (p.drop 1),
+                            mask := if m == ['-'] then none else some (m.drop 1) }
+        | _ => { name := [], nick := [] })
+      let chans : List Config.RawChannel := (unescList (args.getD 9 [])).map (fun n => { name := n })
+      let file : Config.RawConfig :=
+        { name := a 0, network := a 1, listen := a 2, port := natOf (args.getD 3 []),
+          password := o 4, dnsLookup := args.getD 5 [] == ['1'],
+          tls := (match o 6 with
+                  | some t => (match splitOnChar '|' t with | [c, k] => some (c, k) | _ => none)
+                  | none => none),
+          operators := opers, users := users, channels := chans }
+      let cli : Config.CliOpts :=
+        { listen := o 10, port := (o 11).map natOf, name := o 12, network := o 13, logFile := o 14,
+          dnsLookup := args.getD 15 [] == ['1'], tlsCert := o 16, tlsKey := o 17 }
+      toS (Config.renderResult (Config.loadConfig cli file))
     else "unknown-fn " ++ name
   | [] => "unknown-fn"
 
@@ -206,9 +235,79 @@ def fnFile (path : String) : IO Unit := do
     if raw.isEmpty || raw.startsWith "#" then continue
     IO.println (fnCall (words raw))
 
+/-- timer mode (C17): the discrete-time model `Irc.Timer` driven by the same ops as
+    `irc-harness timer`.  Registration is recognised syntactically (the `USER` line of a
+    connection that sent `NICK` before, no passwords in these sequences). -/
+def timerFile (path : String) : IO Unit := do
+  let content ← IO.FS.readFile path
+  let mut tcfg : Timer.TCfg := { pingMs := 1000000000, pongMs := 1000000000, fixed := true }
+  let mut ops : Array String := #[]
+  let mut inSeq := false
+  for raw in content.splitOn "\n" do
+    let line := if raw.endsWith "\r" then (raw.dropEnd 1).toString else raw
+    if line.isEmpty || line.startsWith "#" then continue
+    if line.startsWith "seq " then
+      tcfg := { pingMs := 1000000000, pongMs := 1000000000, fixed := true }
+      ops := #[]; inSeq := false
+      IO.println line
+    else if line.startsWith "cfg " then
+      match (words line).drop 1 with
+      | [k, v] =>
+        if toS k == "ping_timeout" then tcfg := { tcfg with pingMs := natOf v * 1000 }
+        else if toS k == "pong_timeout" then tcfg := { tcfg with pongMs := natOf v * 1000 }
+        else if toS k == "fixed" then tcfg := { tcfg with fixed := natOf v != 0 }
+      | _ => pure ()
+    else if line == "begin" then inSeq := true
+    else if line == "end" then
+      let mut now : Nat := 0
+      let mut sts : List (Nat × Timer.TState) := []
+      let mut nicked : List Nat := []
+      let mut k := 0
+      for op in ops do
+        k := k + 1
+        IO.println s!"op {k} {op}"
+        match words op with
+        | [kw, a] =>
+          if toS kw == "advance" then
+            let ms := natOf a
+            let mut sts' : List (Nat × Timer.TState) := []
+            for (c, st) in sts do
+              let (st', outs) := Timer.tStep tcfg st (.advance ms)
+              for o in outs do IO.println s!"tev {c} {toS o.render}"
+              sts' := sts' ++ [(c, st')]
+            sts := sts'
+            now := now + ms
+        | [kw, c, txt] =>
+          if toS kw == "line" then
+            let cid := natOf c
+            let ws := splitAsciiWhitespace (unesc txt)
+            match ws with
+            | verb :: rest =>
+              let v := toS (asciiUpper verb)
+              if v == "NICK" then nicked := cid :: nicked
+              else if v == "USER" then
+                if nicked.contains cid && !(sts.any (·.1 == cid)) then
+                  sts := sts ++ [(cid, Timer.TState.start tcfg now)]
+              else if v == "PONG" then
+                sts := sts.map (fun (c', st) => if c' == cid then (c', (Timer.tStep tcfg st .pong).1) else (c', st))
+              else if v == "PING" then
+                for (c', st) in sts do
+                  if c' == cid then
+                    let tok := match rest with
+                      | t :: _ => if t.head? == some ':' then t.drop 1 else t
+                      | [] => []
+                    for o in (Timer.tStep tcfg st (.pingCmd tok)).2 do IO.println s!"tev {c'} {toS o.render}"
+            | [] => pure ()
+        | _ => pure ()
+        IO.println "endop"
+      IO.println "endseq"
+      inSeq := false
+    else if inSeq then ops := ops.push line
+
 def main (args : List String) : IO UInt32 := do
   match args with
   | ["run", path] => runFile path; return 0
+  | ["timer", path] => timerFile path; return 0
   | ["fn", path] => fnFile path; return 0
   | _ =>
     IO.eprintln "usage: ircmodel run <ops-file>"
